@@ -51,6 +51,10 @@ THEOREMS = {
     "C11_random_holdout_partition": "create_random_holdout partitions likewise and holds out exactly n rows",
     "C11_initial_plate_conserves": "SparseCover initial plate: output rows = input rows up to plate label and mask, same order",
     "C11_filter_sub": "combination filter: output is the input filtered by a predicate (rows untouched)",
+    'C11_model_is_source_screen_combine': "primitive `a.combine(b)` -> combine_screens: on two valid screens of one arity and control name the translated Screen.combine is refused (mixed plate) exactly when construct refuses the concatenated rows, else it builds a fresh screen whose rows are a's then b's",
+    'C11_model_is_source_subset_to_screen': "primitives `s.subset(v)` -> subset_of and `x.to_screen()` -> Retro.to_screen: the translated Screen.subset gives a view selecting subset_of's rows; the translated to_screen of a view of a valid screen never fails and yields a fresh screen with exactly those rows, same arity and control name",
+    'C11_model_is_source_subset_unobserved_observed': "primitives `s.subset_unobserved()` / `s.subset_observed()`: the translations answer None exactly when Retro's do, else a view of the screen whose rows are Retro's unobserved / observed rows",
+    'C11_model_is_source_is_observed': 'primitives `s.is_observed` -> forallb r_mask and `p.is_observed` -> vec_observed: the translated ScreenBase.is_observed on a Screen / on a Plate',
 }
 ASSUMPTIONS = [
     "numpy Generator.permutation / choice, heapq.heappop and np.argsort answers are oracle inputs of the model; conservation theorems hold for every answer, count theorems assume the documented contract (duplicate-free sub-list of the offered indices of length n), which the harness checks on every recorded answer",
@@ -103,7 +107,17 @@ EXPLANATION = ("Models: Model/Retro.v (wrappers, PlatePermutation, SampleSegrega
                "treatment_mapping and are matched as such), and the shipped generators / smoothers / SparseCover / combination "
                "filter = the models the conservation theorems are about; their hypotheses (max_plate_size >= 0, permutation contract "
                "or the checked model, sufficient while-fuel) and the full list of trusted primitives are in C13's explanation.  "
-               "PairwisePlateGenerator._generate_plates is linked too (C11_model_is_source_pairwise_generate_plates, hypothesis argsort_ok).")
+               "PairwisePlateGenerator._generate_plates is linked too (C11_model_is_source_pairwise_generate_plates, hypothesis argsort_ok)."
+               '  PRIMITIVES AS THEOREMS: the meanings the configurations of this property give to the data.py helpers are no longer '
+               "only trusted - Proofs/C13SourceHelpers.v proves, per primitive, that the helper's own translation (in the Views "
+               'vocabulary, where a Screen object carries its id arrays), read through the representation `Retro screen = rows of the '
+               'Views screen, Retro plate = selection vector of the view`, is that meaning; side conditions are those of reachable '
+               'calls (screen_wf / screen_valid of constructed screens, view_ok of constructed views, plate_ids_fresh / '
+               "sample_ids_fresh = `the id array is the encoder's answer on the current names without a mapping`, true of every screen "
+               'built without mappings and re-established for the plate ids by every merge).  Linked here: Screen.combine, '
+               'Screen.subset, ScreenSubset.to_screen, subset_unobserved / subset_observed, is_observed on a screen and on a plate '
+               '(Props/C13.v: Plate.merge, plates, size, __lt__, unique_sample_ids).  What the helper translations trust is listed in '
+               "C14's explanation (HELPER LINKS). ")
 
 
 def gen(rng, tier):
